@@ -139,6 +139,23 @@ Section P.
     inversion H; subst n'. cbn. auto.
   Qed.
 
+  Lemma relax_not_ignored e to payload n' :
+    relax en rs amt src e to payload = Some n' -> not_ignored rs e = true.
+  Proof.
+    unfold relax. intros H.
+    match type of H with (if ?c then _ else _) = _ => destruct c; [discriminate|] end.
+    destruct (not_ignored rs e); [reflexivity | discriminate].
+  Qed.
+
+  Lemma usable_edge_ok o e a :
+    syn o e -> usable_b en rs o a = true -> not_ignored rs e = true ->
+    edge_ok en rs o a = true.
+  Proof.
+    intros [_ Hf Ht _ _ _] Hu Hn. unfold usable_b in Hu. unfold edge_ok.
+    apply andb_prop in Hu. destruct Hu as [Hr Hl]. rewrite Hr, Hl.
+    unfold not_ignored in *. rewrite <- Hf, <- Ht. rewrite Hn. reflexivity.
+  Qed.
+
   (* well-formed numeric content of an entry *)
   Record wf_num (x : dentry) : Prop := mkWfNum {
     w_weight : 0 <= d_weight x;
@@ -474,6 +491,8 @@ Section P.
     apply andb_prop in Hoff. destruct Hoff as [Hoff Hoff3].
     apply andb_prop in Hoff. destruct Hoff as [Hsynb Hok].
     pose proof (syn_b_syn _ _ Hsynb) as Hsyn.
+    pose proof (usable_edge_ok _ _ _ Hsyn Hok (relax_not_ignored _ _ _ _ Hrl)) as Hok'.
+    clear Hok. rename Hok' into Hok.
     assert (Hcnode : n_node (d_e c) = from) by (rewrite Hce; exact Hn1).
     (* c heads a chain through finalised entries *)
     assert (Hcb : exists es os szs,
